@@ -143,7 +143,7 @@ fn main() {
     if tier == Tier::Thorough && def.shards > 1 {
         let n = def.shards.min(std::thread::available_parallelism().map(|n| n.get() as u32).unwrap_or(4));
         let exe = std::env::current_exe().unwrap();
-        let dir = std::path::Path::new(engine::VERIF_DIR).join("target").join("shards");
+        let dir = std::path::Path::new(&engine::verif_dir()).join("target").join("shards");
         let _ = std::fs::create_dir_all(&dir);
         let mut kids = Vec::new();
         for si in 0..n {
@@ -190,7 +190,7 @@ fn main() {
 }
 
 fn inflight_path(id: &str, tag: &str) -> String {
-    let dir = std::path::Path::new(engine::VERIF_DIR).join("target").join("inflight");
+    let dir = std::path::Path::new(&engine::verif_dir()).join("target").join("inflight");
     let _ = std::fs::create_dir_all(&dir);
     dir.join(format!("{id}-{}-{tag}.bin", std::process::id())).display().to_string()
 }
